@@ -73,6 +73,7 @@ type crashExec struct {
 	nestedMax               int  // cap of nested instants per Open (0 = all)
 	nestedCreates           bool // file creations and directory operations during a recovery Open are crash instants too (C07)
 	uniq                    int
+	cutShort                bool
 	afterStep               func(x *crashExec, op *kvh.Op, mutated bool) *kvh.Fail
 	nonTrivial              func(x *crashExec, inst *kvh.Instant, cuts map[string]int64) bool
 	onVerify                func(x *crashExec, inst *kvh.Instant, cuts map[string]int64, dump map[string][]byte, j int) *kvh.Fail
@@ -81,6 +82,14 @@ type crashExec struct {
 func (x *crashExec) selected(k int) bool {
 	if x.c.Only != nil {
 		return k == x.c.Only.Event
+	}
+	if kvh.GetEnv().PastSoftDeadline() {
+		// the run is out of time: the case in flight ends without freezing further instants
+		if !x.cutShort {
+			x.cutShort = true
+			x.st.ExtraAdd("cases_cut_short_at_soft_deadline", 1)
+		}
+		return false
 	}
 	h := kvh.Hash64([]byte(fmt.Sprintf("%d|%d", x.c.SelSeed, k)))
 	if x.c.ImgCap > 0 && x.cs.images >= x.c.ImgCap && (h/100)%12 != 0 {
